@@ -214,6 +214,20 @@ def scenarios(tier):
                                 concurrency=conc, results=res,
                                 compare_ctx=False)
             jobs.append((scn, 1 if quick else 3, 40 if quick else 900, 1))
+    # a failed item (sub-workflow) repaired from the inside: the failed
+    # task of the child is rerun; the slot accounting of the with-items task
+    # must still let it complete
+    for n, conc, o in ((2, 1, 'SE'), (2, 2, 'ES'), (3, 2, 'SES')):
+        res = {'i%d' % k: ([o[k]] if o[k] == 'S' else ['E', 'S'])
+               for k in range(n)}
+        res['b'] = ['S']
+        scn = ItemsScenario('sub-repair-n%d/c%s/%s' % (n, conc, o),
+                            make_prog(n, conc, sub=True),
+                            items=['i%d' % k for k in range(n)],
+                            concurrency=conc, results=res, menu=['rerun'],
+                            max_cmds=1, only_tasks=['s'],
+                            compare_ctx=False)
+        jobs.append((scn, 0 if quick else 1, 40 if quick else 900, 1))
     # retry
     for o in (('E', 'S'), ('S', 'S')):
         res = {'i0': [o[0], 'S'], 'i1': ['S', 'S'], 'b': ['S']}
